@@ -773,8 +773,9 @@ class Sim:
     def pop_frame(self, st):
         fr = st.frames.pop()
         ret = st.mem.get(fr.locals[0], UNINIT)
-        for o in fr.locals:
-            st.mem.pop(o, None)
+        if fr.tag not in ("promoted", "const"):   # promoted/const bodies return references to their own locals (statics)
+            for o in fr.locals:
+                st.mem.pop(o, None)
         return fr, ret
 
     def run_nested(self, st, fn, body, gargs, args, tag):
